@@ -23,7 +23,7 @@ def run(ctx):
         "spec-level lossySpec is compared with std String::from_utf8_lossy on every explored byte string",
         "harness oracles for the judge inputs: injection content ranges and resolved local references are computed by "
         "harness/src/bin/c17/main.rs through the public query API (independent re-implementation of intersect_ranges / scope lookup)",
-        "Merge.lean is a model of HighlightIter::next's highlight branch only (not tied by correspondence; the real streams are judged instead)",
+        "Merge.lean / MergeMulti.lean model HighlightIter::next (one layer / several layers without locals queries); both are tied by correspondence with the real event streams; the locals branch and layer construction are judged, not modelled",
     ]
     ctx.assumptions += [
         "the attribute callback passed to HtmlRenderer::render never writes '>' (hattr)",
@@ -75,6 +75,7 @@ def run(ctx):
     judge_eval = 0
     reported = Counter()
     sizes = []
+    multi = Counter()
 
     def report_judge(cid, kv, clause, what, cause="-"):
         nonlocal judge_bad
@@ -102,12 +103,31 @@ def run(ctx):
             continue
         cid, kv = parse_kv_line(line)
         kind = kv.get("kind")
-        if kind not in ("L", "R", "H", "M"):
+        if kind not in ("L", "R", "H", "M", "N"):
             continue
         evals += 1
         kinds[kind] += 1
         spec = specs.get(cid, "")
         corr = kv.get("corr", "?")
+        if kind == "N":
+            judge_eval += 1
+            multi["compared"] += 1
+            nl = int(kv.get("nlayers", "0") or 0)
+            dist["N:layers=%s" % ("1" if nl <= 1 else "2-3" if nl <= 3 else "4-8" if nl <= 8 else ">8")] += 1
+            if kv.get("defsin") != "1":
+                report_corr(cid, kv, "a real capture lies outside the source (hypothesis defsIn of merge_multi_wellformed_partial)", "defsIn")
+            if corr == "ok" and kv.get("fin") == "1":
+                multi["equal"] += 1
+            else:
+                report_corr(cid, kv, "model mergeLayers (sort_key/sort_layers/insert_layer/last_highlight_range) and the real multi-layer event stream disagree (corr=%s fin=%s)" % (corr, kv.get("fin")),
+                            "mergeLayers=HighlightIter::next")
+            if kv.get("wf") != "ok":
+                report_judge(cid, kv, "events-wellformed", "multi-layer event stream is not well formed")
+            if kv.get("err", "-") != "-":
+                report_judge(cid, kv, "highlight-error", "Highlighter::highlight returned an error: " + kv["err"])
+            if nl >= 2:
+                distinct.add(hashlib.sha1(spec.encode()).hexdigest())
+            continue
         if kind == "M":
             judge_eval += 1
             dist["M:capsok=%s" % kv.get("capsok")] += 1
@@ -197,13 +217,14 @@ def run(ctx):
                 "(well-formed, extra End, unclosed Start, gaps/overlaps, out-of-range, empty sources) through HtmlRenderer; H = a generated "
                 "document (stmt / tmpl / host, nested + combined injections, locals; clean, CR/CRLF, invalid UTF-8, byte noise, truncated tail) "
                 "through Highlighter::highlight (one highlighter reused for all documents) and HtmlRenderer.  Non-trivial := H with >=2 nested "
-                "highlights or >=1 injection layer; R well-formed with >=1 highlight; L with >=1 byte >= 0x80.  Distinct by SHA-1 of the case spec.",
+                "highlights or >=1 injection layer; N (multi-layer merge model vs real stream, no locals) with >=2 layers; R well-formed with >=1 highlight; L with >=1 byte >= 0x80.  Distinct by SHA-1 of the case spec.",
         "samples": samples,
         "kinds": dict(kinds), "implementation_matches_port": dict(variants),
         "distribution": dict(sorted(dist.items())),
         "highlight_doc_bytes": {"min": sizes[0] if sizes else 0, "median": sizes[len(sizes) // 2] if sizes else 0, "max": sizes[-1] if sizes else 0},
         "judge_failures_by_clause_and_cause": dict(causes),
         "correspondence": {"compared": evals + kinds["L"], "equal": evals + kinds["L"] - corr_bad},
+        "correspondence_merge_multi": {"compared": multi["compared"], "equal": multi["equal"]},
         "judge": {"evaluated": judge_eval, "passed": judge_eval - judge_bad},
         "impl_vs_judge_failures": judge_bad, "model_vs_impl_disagreements": corr_bad,
     })
